@@ -141,6 +141,9 @@ def run_inproc(E, spec, R, rng):
         R.last(wit)
         out = run_batch(E, case)
         fp = stable_hash(wit['case'])
+        if isinstance(out['error'], MemoryError):
+            R.count('harness:memory-limit-hit')        # address-space limit of the shard, not a verdict
+            continue
         if out['error'] is not None:
             R.case(fp, True)
             if 'empty' in kinds:
@@ -200,6 +203,9 @@ def run_inproc(E, spec, R, rng):
                     except oracle_cky.Budget:
                         pass
             alone = run_batch(E, case, order=[i])
+            if isinstance(alone['error'], MemoryError):
+                R.count('harness:memory-limit-hit')
+                continue
             if alone['error'] is not None or len(alone['results']) != 1:
                 viol(E, 'batch:history-dependent', f'sentence {i} alone: {alone["error"]!r}', wit)
                 continue
